@@ -129,3 +129,40 @@ func c20ThoroughOnly(f func()) {
 		vp.Cover("thorough tier only")
 	}
 }
+
+// VP_C20_fileread_unwritten: an unwritten (uninitialised) extent - ee_len > 32768, real length
+// ee_len-32768, as debugfs "fallocate" or the kernel create them - holds no file data: its range reads
+// as zeros (or the read is refused), never as the stale content of the disk blocks.
+func VP_C20_fileread_unwritten() {
+	const bs = 1024
+	const L = 4
+	dev := vpdev.NewMemDev("disk", -1)
+	dev.UF = true
+	dev.NoWrites = true
+	fs := &FileSystem{superblock: &superblock{blockSize: bs}, backend: dev}
+	c0, s0 := vp.U16("ee_len0"), vp.U64("ee_start0")
+	vp.Assume(c0 > 32768)
+	vp.Assume(s0 < 1<<40)
+	realBytes := uint64(c0-32768) * bs
+	size := vp.U64("size")
+	vp.Assume(size <= realBytes)
+	off := vp.I64("offset")
+	vp.Assume(off >= 0)
+	vp.Assume(uint64(off) < size)
+	fl := &File{inode: &inode{size: size}, offset: off, filesystem: fs,
+		extents: extents{{fileBlock: 0, count: c0, startingBlock: s0}}, fileType: dirFileTypeRegular}
+	p := make([]byte, L)
+	vp.AllocCap(L + 2)
+	vp.Unwind(4)
+	n, err := fl.Read(p)
+	if err == nil || err == io.EOF {
+		for i := 0; i < L; i++ {
+			if i < n {
+				vp.AssertUnless("KF-C20-7", true, p[i] == 0, "bytes of an unwritten extent read as zeros")
+			}
+		}
+		vp.Cover("read over an unwritten extent returned data")
+	} else {
+		vp.Cover("read over an unwritten extent refused")
+	}
+}
